@@ -246,6 +246,16 @@ def run(ctx):
                     bounded.append(H.loc(lp_))
         ctx.inst("C18.R7", fname_.replace(CORE, "") + "#unbounded-walk", not bounded, "loops with an iteration bound in the scope-chain walk: %s" % (bounded or "none"), H.loc(fb_["body"]))
 
+    # ---------------- R8 a recursion through a callback is not ended by a borrow panic
+    ctx.rule("C18.R8", "no RefCell guard of the heap is live while a callback runs (via / where / into and the higher-order built-ins): the next level of a recursion through the callback allocates, and `already borrowed` is a panic - the process dies instead of reaching the call-depth error", floor=8)
+    from rules import c01 as c01_
+    for fn_, k_, live_, loc_ in c01_.callback_guard_sites(core):
+        ctx.inst("C18.R8", "%s#callback%d" % (fn_.replace("blots_core::", ""), k_), not live_, "heap guards that may be live during the callback: %s" % (live_ or "none"), loc_)
+    # ---------------- R9 the error is what the run ends with
+    ctx.rule("C18.R9", "the call-depth error ends the run: in the CLI's statement loop every Err of evaluate_pairs leads to a non-zero exit through a handler that reports it - also when the failing statement is an `output` declaration", floor=2)
+    from rules import c19 as c19_
+    c19_.evaluation_errors_are_fatal(ctx, "C18.R9", ctx.cli)
+
     ctx.rule("C18.R3s", "the evaluator runs on the main thread (8 MiB default) or on a thread whose explicit stack size is at least that; recorded for the stack budget", floor=1)
     sizes = []
     for name, f in cg.fns.items():
